@@ -163,6 +163,26 @@ static void dtor_reuse_alloc(int self_slot) {
   }
 }
 
+/* keep=1: the first destructor that runs while some root object has a free child slot allocates a new managed object at the
+** highest arena address, hangs it under that root and keeps it (a destructor that appends a record to a rooted journal).
+** The record is reachable from the root from then on. */
+static int dtor_keep, keep_done;
+static void dtor_keep_alloc(int self_slot) {
+  if (!dtor_keep || keep_done || stopped || !gc || strcmp(lastkind, "teardown") == 0) return;
+  int t = NSLOT - NTEMP - 1;
+  if (S[t].kind != K_NONE) return;
+  for (int r = 0; r < A; r++) {
+    if (r == self_slot || S[r].kind != K_ROOT || !S[r].constructed || S[r].deleted || S[r].fin || S[r].child >= 0) continue;   /* (a root still inside its own new_root is not constructed yet: its constructor would wipe the link) */
+    int saved = alloc_at;
+    memset(&S[t], 0, sizeof S[t]); S[t].kind = K_STD; S[t].child = -1;
+    alloc_at = t; keep_done = 1;
+    var rec = new(Cell);
+    alloc_at = saved;
+    ((struct Cell*)P(r))->child = rec; S[r].child = t;      /* a plain link: the root refers to the record */
+    return;
+  }
+}
+
 static void Cell_Del(var self) {
   struct Cell* c = self;
   int s = slot_of(self);
@@ -174,6 +194,7 @@ static void Cell_Del(var self) {
   if (c->canary != CANARY) lfail("object #%d corrupted before finalisation", s);
   dtor_temporaries(s);
   dtor_reuse_alloc(s);
+  dtor_keep_alloc(s);
   if (c->owner && c->child) {
     int cs = slot_of(c->child);
     /* the owner means the object it was linked to - not a new object a destructor has meanwhile put at that address */
@@ -197,7 +218,7 @@ var Cell = Cello(Cell,
 static var* stack_bottom;   /* address of a local in main: the collector's stack bottom */
 
 static void reset(void) {
-  temp_sp = 0; reuse_done = 0; reuse_slot = -1;
+  temp_sp = 0; reuse_done = 0; reuse_slot = -1; keep_done = 0;
   memset(S, 0, sizeof S);
   for (int s = 0; s < NSLOT; s++) S[s].child = -1;
   ledger_err[0] = 0; stopped = 0; alloc_at = -1; exec_bad = 0; owner_del_ignored = 0;
@@ -795,7 +816,11 @@ static int in_exit_child;
 static var exit_body(var args) {
   volatile var kept = NULL;
   int next = 0;     /* arena slots are handed out in order */
+  int halted = 0;   /* the program stopped its collector and ends that way: it allocates nothing afterwards (an object made in a
+                    ** stop window is never registered - the recorded finding D6 - so only what was registered before is judged) */
   for (int i = 0; i < exit_len; i++) {
+    if (exit_prog[i] == 6) { if (!halted) { stop(current(GC)); halted = 1; stopped = 1; } continue; }
+    if (halted && exit_prog[i] != 4) continue;
     if (next >= NSLOT - NTEMP - 2 && exit_prog[i] != 4) continue;   /* arena exhausted: the rest of the program allocates nothing */
     switch (exit_prog[i]) {
     case 0: alloc_at = next; S[next].kind = K_STD; S[next].child = -1; new(Cell); next++; break;                 /* garbage at once */
@@ -838,7 +863,7 @@ __attribute__((destructor)) static void exit_hook(void) {
 static void exit_modes(void) {
   vf.phase = "gc-exit";
   int depth = (int)vf_param_i("depth", 4);
-  const int NOPS = 6;
+  const int NOPS = 7;
   /* cells here live at consecutive, non-colliding arena slots: use the spare region layout for all of them */
   A = MAXA;
   uint64_t total = 0, p = 1; for (int i = 0; i < depth; i++) { p *= NOPS; total += p; }
@@ -851,12 +876,12 @@ static void exit_modes(void) {
       uint64_t x = idx, count = NOPS; int len = 1;
       while (x >= count) { x -= count; count *= NOPS; len++; }
       exit_len = len; for (int i = len - 1; i >= 0; i--) { exit_prog[i] = (int)(x % NOPS); x /= NOPS; }
-      char ps[64]; size_t o = 0; static const char* on[] = { "new", "kept=new", "new_root;del_root", "owner+owned", "del(kept)", "churn30" };
+      char ps[64]; size_t o = 0; static const char* on[] = { "new", "kept=new", "new_root;del_root", "owner+owned", "del(kept)", "churn30", "stop(gc)" };
       for (int i = 0; i < len; i++) o += snprintf(ps + o, sizeof ps - o, "%s%d", i ? "," : "", exit_prog[i]);
       vf_set_cur("exit where=%d idx=%" PRIu64 " | %s: program [%s]", where, idx, where == 0 ? "worker thread exit" : "main thread, atexit(Cello_Exit), exit()", ps);
       if ((idx & 63) == 0) vf_watchdog(120);
       memset(S, 0, sizeof S); for (int s = 0; s < NSLOT; s++) S[s].child = -1;
-      ledger_err[0] = 0; alloc_at = -1; exec_bad = 0;
+      ledger_err[0] = 0; alloc_at = -1; exec_bad = 0; stopped = 0;
       if (where == 0) {
         lastkind = "thread-exit";
         /* the main thread needs a collector of its own while the worker runs */
@@ -920,6 +945,7 @@ int main(int argc, char** argv) {
   if (vf_param_is("residues", "B", "A")) residue = residueB;
   rootsleft = (int)vf_param_i("rootsleft", 0);
   dtor_reuse = (int)vf_param_i("reuse", 0);
+  dtor_keep = (int)vf_param_i("keep", 0);
   dtor_temps = (int)vf_param_i("temps", 0); if (dtor_temps > 4) dtor_temps = 4;
 
   size_t need = 8L * MODW * (20 + NSPARE + 4) + 8L * MODW + 4096;
